@@ -186,6 +186,15 @@ def run(tier, seed):
                 ck.fail('ILOG output contradicts the property', rp | {'first_difference': k, 'expected': spec[k:k + 1], 'actual': real[k:k + 1]}, 'ilog_lines')
             if real[2:] != model[2:] or len(real) != len(model):
                 ck.disagree('parse_ilog_data differs from model', rp | {'impl': real[:5], 'model': model[:5]})
+        # ---- a header file that is rewritten between two decodes in one process
+        synth = [pth for nm, pth in loader_files if nm.startswith('synth') and os.path.exists(pth)]
+        import re as _re
+        pats = []
+        for pth in synth:      # PTE values that hit the patterns of the synthetic tables, so that two tables give different lines
+            pats += _re.findall(r'"([0-9A-Fa-f*]{8})"', open(pth).read())
+        vals = [int(pt.replace('*', rng.choice('0123456789ABCDEF')), 16) for pt in pats[:400]] + [0xE30C7704, 0x01040000]
+        sample = b''.join(((i % 65535 << 48) | (i << 32) | v).to_bytes(8, 'big') for i, v in enumerate(vals, 1))
+        iod.check_rewritten_table_file(ck, 'pte', synth, lambda pth: il.parse_ilog_data(memoryview(sample), pth), rng, 12 if thorough else 4)
     finally:
         shutil.rmtree(tmp, ignore_errors=True)
     return ck.finish(RULE, TRUSTED, ASSUME)
